@@ -7,6 +7,7 @@ require (
 	github.com/buchgr/bazel-remote/v2 v2.0.0
 	github.com/klauspost/compress v1.19.0
 	github.com/valyala/gozstd v1.26.0
+	golang.org/x/crypto v0.54.0
 	google.golang.org/genproto/googleapis/bytestream v0.0.0-20260114163908-3f89685c29c3
 	google.golang.org/grpc v1.82.1
 	google.golang.org/protobuf v1.36.11
@@ -27,7 +28,6 @@ require (
 	github.com/prometheus/common v0.67.5 // indirect
 	github.com/prometheus/procfs v0.19.2 // indirect
 	go.yaml.in/yaml/v2 v2.4.3 // indirect
-	golang.org/x/crypto v0.54.0 // indirect
 	golang.org/x/net v0.57.0 // indirect
 	golang.org/x/sync v0.22.0 // indirect
 	golang.org/x/sys v0.47.0 // indirect
